@@ -57,7 +57,9 @@ extern int vp_replay_witnessed;
 #define VP_W_OK(p, n) ((p) != NULL)
 
 #include VP_INPUT_FILE
-#define VP_INPUT(var) struct vp_in var = VP_REPLAY_INIT
+/* static: gcc 12 -ftrivial-auto-var-init=pattern corrupts large automatic objects that have a
+ * designated initialiser (observed: members reset to 0); a static object is initialised by the loader */
+#define VP_INPUT(var) static struct vp_in var = VP_REPLAY_INIT
 
 #define VP_MAIN_EPILOGUE()                                                  \
     int vp_replay_failed = 0;                                               \
